@@ -13,17 +13,32 @@ REAL = ["train_* routines", "replay buffers", "losses/optimisers/target updates"
 STUB = ["environment (SimEnv)", "action-space sampler (recording subclass of the real space)", "networks are real tiny MLPs with probes"]
 ASSUMPTIONS = ["stored rows are read through the documented public `buffer` mapping and len()",
                "SimEnv ignores actions (bookkeeping properties do not depend on closed-loop dynamics)"]
-TIERS = {"quick": {"runs": 80}, "thorough": {"runs": 1500}}
-REQUIRED = ["datasets_checked", "dataset_with_several_episodes", "parallel_environments", "stored_rows_checked", "stored_first_transition_after_reset", "acting_on_current_obs", "capacity_smaller_than_run", "one_step_episode"]
+TIERS = {"quick": {"runs": 90}, "thorough": {"runs": 1500}}
+REQUIRED = ["multitask_rows_checked", "multitask_several_task_buffers", "datasets_checked", "dataset_with_several_episodes", "parallel_environments", "stored_rows_checked", "stored_first_transition_after_reset", "acting_on_current_obs", "capacity_smaller_than_run", "one_step_episode"]
 REQUIRED_QUICK = REQUIRED
 CHUNK = 24  # TrainSim plans per fresh worker process
 SHRINK_LISTS = [["env", "script"]]
+PLAN_LIMIT_S = 200
 SHRINK_INTS = []
 CLAUSES = ["C01.a", "C01.b", "C01.c", "C01.d"]
 ADAPTERS = ["ddpg", "td3", "td3_lap", "sac", "dqn", "nature_dqn", "ddqn", "ddqn_per", "td7", "mrq", "pets", "reinforce", "actor_critic", "a2c", "ppo", "cmaes"]
 
 
 def make_plan(rng, tier, index):
+    if index % 10 == 9:
+        # multi-task training: per-task buffers of MultiTaskReplayBuffer filled through a scheduler
+        from rlsim import schedsim
+        while True:
+            plan = schedsim.make_plan(rng, 6)
+            if plan["sched_kind"] == "scheduler" and plan["scheduler"] in ("smt", "active_mt"):
+                break  # train_uts does not route a multi-task buffer (it has no replay_buffer parameter)
+        plan["backbone"] = "stub" if rng.random() < 0.8 else rng.choice(["td3", "sac"])
+        plan["n_tasks"] = rng.choice([2, 3, 5])
+        plan["buffer_size"] = 1000
+        plan["check_store"] = True
+        plan.update(check=PROPERTY, kind="sched")
+        return plan
+    index = index - index // 10
     ad = ADAPTERS[index % len(ADAPTERS)]
     plan = trainplan.base_plan(rng, PROPERTY, CLAUSES, ad, T=rng.choice([10, 14]) if ad == "pets" else None)
     if rng.random() < 0.6:
@@ -36,4 +51,7 @@ def normalise(plan):
 
 
 def execute(plan):
+    if plan.get("kind") == "sched":
+        from rlsim import schedsim
+        return schedsim.execute(plan)
     return trainsim.execute(plan)
